@@ -182,6 +182,7 @@ func runDriver(args []string) int {
 		fn     string
 		pre    string
 		reach  string
+		who    string
 	}
 	vacs := make([]vac, len(vcs))
 	for i, vc := range vcs {
@@ -192,10 +193,14 @@ func runDriver(args []string) int {
 			defer func() { <-sem }()
 			vacs[i] = vac{fn: vc.Name}
 			pre := w.vacuityScript(vc, vc.PreLines, True, specFns)
-			vacs[i].pre = Solve(dir, "vac_pre_"+sanitize(vc.Name), pre, 5, false).Status
+			pr := Solve(dir, "vac_pre_"+sanitize(vc.Name), pre, 5, false)
+			vacs[i].pre = pr.Status
+			vacs[i].who = pr.Solver
 			if len(vc.ReachRet) > 0 {
 				r := w.vacuityScript(vc, len(vc.Lines), Or(vc.ReachRet...), specFns)
-				vacs[i].reach = Solve(dir, "vac_reach_"+sanitize(vc.Name), r, 5, false).Status
+				rr := Solve(dir, "vac_reach_"+sanitize(vc.Name), r, 5, false)
+				vacs[i].reach = rr.Status
+				vacs[i].who += "/" + rr.Solver
 			} else {
 				vacs[i].reach = "no-return"
 			}
@@ -253,7 +258,7 @@ func runDriver(args []string) int {
 
 	exit := 0
 	violations := 0
-	os.MkdirAll(filepath.Join(verifDir, "replays", prop), 0o755)
+	os.MkdirAll(filepath.Join(replayDir(), prop), 0o755)
 	var knownLines []string
 	for _, o := range failed {
 		kf := findKnown(known, prop, o.Name)
@@ -280,7 +285,7 @@ func runDriver(args []string) int {
 		if hasProp(contractProps(c), prop) {
 			violations++
 			exit = 1
-			rp := filepath.Join(verifDir, "replays", prop, sanitize("translate:"+m)+".txt")
+			rp := filepath.Join(replayDir(), prop, sanitize("translate:"+m)+".txt")
 			os.WriteFile(rp, []byte("obligation translate:"+m+"\nthe function under contract no longer exists in /repo; its obligations cannot be generated\n"), 0o644)
 			fmt.Printf("VIOLATION property=%s replay=%s obligation=translate:%s no-failing-input-found\n", prop, rp, m)
 		}
@@ -292,7 +297,7 @@ func runDriver(args []string) int {
 			vacBad = append(vacBad, v.fn+": precondition unsatisfiable")
 		}
 		if v.reach == "unsat" {
-			vacBad = append(vacBad, v.fn+": no return reachable under the contract")
+			vacBad = append(vacBad, v.fn+": no return reachable under the contract ("+v.who+")")
 		}
 	}
 	if len(machineryErrs) > 0 || len(vacBad) > 0 || total < pc.MinObls {
@@ -389,13 +394,16 @@ func runDriver(args []string) int {
 			"machinery_errors":         machineryErrs,
 		},
 	}
-	os.MkdirAll(filepath.Join(verifDir, "evidence"), 0o755)
+	evDir := envOr("ICE_EVIDENCE_DIR", filepath.Join(verifDir, "evidence"))
+	os.MkdirAll(evDir, 0o755)
 	b, _ := json.MarshalIndent(ev, "", " ")
-	os.WriteFile(filepath.Join(verifDir, "evidence", prop+".json"), b, 0o644)
+	os.WriteFile(filepath.Join(evDir, prop+".json"), b, 0o644)
 	fmt.Printf("%s %s: %d obligations, %d discharged, %d known findings, %d violations, %d functions, %.1fs\n",
 		prop, tier, total, discharged, len(knownLines), violations, len(vcs), time.Since(t0).Seconds())
 	return exit
 }
+
+func replayDir() string { return envOr("ICE_REPLAY_DIR", filepath.Join(verifDir, "replays")) }
 
 func maxInt(a, b int) int {
 	if a > b {
@@ -442,7 +450,7 @@ func (w *World) vacuityScript(vc *FnVC, nlines int, extra Term, specFns string) 
 // writeReplay writes the replay file for a failed obligation. Returns the path,
 // with suffix ".replayed" when a scenario reproduction ran and failed on the real code.
 func writeReplay(w *World, prop string, o *Obligation, known []KnownFinding) string {
-	path := filepath.Join(verifDir, "replays", prop, sanitize(o.Name)+".txt")
+	path := filepath.Join(replayDir(), prop, sanitize(o.Name)+".txt")
 	var b strings.Builder
 	b.WriteString("obligation: " + o.Name + "\n")
 	b.WriteString("property:   " + prop + "\n")
